@@ -290,6 +290,9 @@ func genStringLit(t *rapid.T, isBytes bool, eol func() string) *N {
 			}
 			prev.shortOctal = false
 		}
+		if len(out) > 0 && strings.HasSuffix(out[len(out)-1].src, "\r") && strings.HasPrefix(p.src, "\n") {
+			p = piece{src: "x", val: []byte("x")} // CR then LF would read as one CRLF
+		}
 		if p.quoteRun {
 			run++
 			if run > 2 || i == len(ps)-1 {
